@@ -542,16 +542,23 @@ def run(ctx):
         # Mechanism test by intervention: PhaseShift(k pi/4) with k = 3 or 5 (mod 8) is T^3 / T^5, but the transform's shortcut emits T^dagger / T for
         # every odd k.  Such angles may sit in a PhaseShift or inside gates that decompose into one (U2, U3, ControlledPhaseShift, ...).  Move every
         # such angle by 2e-5 (outside the shortcut's 1e-6 window) and transform again: if that circuit is approximated correctly, the shortcut is the cause.
-        def _odd(a):
+        def _odd(a):  # any multiple of pi/4: consecutive phase gates are merged before the shortcut is taken (S^dagger T^dagger -> PhaseShift(5 pi/4))
             q = a / (math.pi / 4)
-            return abs(q - round(q)) * (math.pi / 4) < 1e-6 and int(round(q)) % 8 in (3, 5)
+            return abs(q - round(q)) * (math.pi / 4) < 1e-6 and int(round(q)) != 0
 
         try:
-            moved, hit = [], False
+            moved, hit, jj = [], False, 0
             for o in tape.operations:
                 ps = [float(np.real(_scalar(d_))) for d_ in o.data]
-                if ps and any(_odd(a) for a in ps) and o.name in ("PhaseShift", "U1", "U2", "U3", "ControlledPhaseShift", "CPhaseShift00", "CPhaseShift01", "CPhaseShift10", "Rot"):
-                    moved.append(type(o)(*[a + 2e-5 if _odd(a) else a for a in ps], wires=o.wires))
+                if ps and any(_odd(a) for a in ps) and o.name in ("PhaseShift", "U1", "U2", "U3", "ControlledPhaseShift", "CPhaseShift00", "CPhaseShift01", "CPhaseShift10"):
+                    newp = []
+                    for a in ps:
+                        if _odd(a):
+                            jj += 1
+                            newp.append(a + 2e-5 * jj)
+                        else:
+                            newp.append(a)
+                    moved.append(type(o)(*newp, wires=o.wires))
                     hit = True
                 else:
                     moved.append(o)
